@@ -591,9 +591,9 @@ pub fn main(ctx: Ctx) -> ! {
     }
     let env = Env::new("z.y.", alphabet());
     let env_root = Env::new(".", alphabet());
-    // A 26-add core of the alphabet (one or two adds of every group) for one
+    // A 22-add core of the alphabet (one or two adds of every group) for one
     // more level of plain enumeration.
-    let core: Vec<Rr> = [0usize, 1, 2, 3, 4, 5, 6, 7, 8, 9, 10, 11, 12, 13, 16, 17, 18, 19, 21, 22, 24, 25, 31, 33, 34, 36].iter().map(|i| alphabet()[*i].clone()).collect();
+    let core: Vec<Rr> = [0usize, 1, 2, 3, 4, 6, 7, 8, 9, 10, 11, 13, 16, 17, 19, 21, 22, 24, 25, 31, 33, 34].iter().map(|i| alphabet()[*i].clone()).collect();
     let env_core = Env::new("z.y.", core);
     let mut runs: Vec<(&Env, usize)> = vec![(&env, ctx.pick(3, 4)), (&env_root, ctx.pick(3, 4))];
     runs.push((&env_core, ctx.pick(4, 5)));
